@@ -28,12 +28,19 @@ def load_contracts():
     if CONTRACT_MODULES is not None:
         return
     CONTRACT_MODULES = []
+    R.CURRENT_FILE[0] = 'prelude'
     import contracts.prelude  # noqa
     for path in sorted(glob.glob(os.path.join(HERE, 'contracts', '*.py'))):
         name = os.path.basename(path)[:-3]
         if name in ('__init__', 'prelude'):
             continue
+        R.CURRENT_FILE[0] = name
         CONTRACT_MODULES.append(importlib.import_module('contracts.' + name))
+    R.CURRENT_FILE[0] = None
+    # a verified (repo) contract silently replaced by a later file would drop its obligations: refuse that
+    bad = [o for o in R.OVERRIDES if o[3] == 'repo']
+    if bad:
+        raise RuntimeError('contract files override verified contracts: %r' % (bad,))
 
 
 _OBS = []      # (function index, Obligation) -- inherited by the forked discharge workers
@@ -149,6 +156,8 @@ def scan_assumptions():
         elif not c.verify:
             out.append('trusted (not verified) repo function: %s' % key)
     out.extend(R.ASSUMPTIONS)
+    for (k, a, b, ka, kb) in R.OVERRIDES:
+        out.append('assumed contract %s of contracts/%s.py is replaced by the one in contracts/%s.py (later file wins)' % (k, a, b))
     return out
 
 
